@@ -366,6 +366,7 @@ struct mdarray {
     explicit constexpr mdarray(E const& e) : m(e), c(size_t(m.required_span_size())) { }
     explicit constexpr mdarray(mapping_type const& map) : m(map), c(size_t(m.required_span_size())) { }
     constexpr mdarray(E const& e, T const& v) : m(e), c(size_t(m.required_span_size()), v) { }
+    constexpr mdarray(mapping_type const& map, C const& cc) : m(map), c(cc) { }
     template <typename... Is>
         requires(sizeof...(Is) == E::rank())
     constexpr auto operator()(Is... is) -> T&
